@@ -15,9 +15,23 @@ def store_calls(F, m):
     return [(bb, t) for bb, t in m.calls() if t.get("f") is not None and re.search(r"Exfiltrator>::store$", F.inst[t["f"]].name)]
 
 
+_wake_prim = {}
+
+
 def wake_calls(F, m):
-    return [(bb, t) for bb, t in m.calls() if t.get("f") is not None and
-            ((F.inst[t["f"]].kind == "virtual" and "SelfPipeWrite" in (F.inst[t["f"]].dyn or "")) or re.search(r"SelfPipeWrite>::wake_readers$", F.inst[t["f"]].name))]
+    """calls through which m reaches the self-pipe wake primitive (virtual wake_readers, a wrapper, or the primitive itself)"""
+    if id(F) not in _wake_prim:
+        from .C13 import wake_fn
+        _wake_prim[id(F)] = wake_fn(F).id
+    prim = _wake_prim[id(F)]
+    out = []
+    for bb, t in m.calls():
+        if t.get("f") is None:
+            continue
+        c = F.inst[t["f"]]
+        if (c.kind == "virtual" and "SelfPipeWrite" in (c.dyn or "")) or c.id == prim or (c.local and prim in F.reach([c])):
+            out.append((bb, t))
+    return out
 
 
 def load_calls(F, m):
@@ -185,7 +199,28 @@ def mentions_call_arg(m, ce, call_bbs):
     return False
 
 
+def rule_d(ctx):
+    """a delivery can run the action as soon as the registration call returns (even before add_signal returns): whatever the action needs
+    — the lazily initialised slot — must be ready before the registration"""
+    F = ctx.F
+    rid = "C09.d"
+    ctx.rule(rid, "the slot is initialised before the action is registered: every Exfiltrator::init call in add_signal dominates the registration "
+                  "call (a delivery in between would be woken for but not stored)", floor=3)
+    adds = insts(F, r"^<signal_hook::iterator::backend::PendingSignals<.*> as signal_hook::iterator::backend::AddSignal>::add_signal$", "PendingSignals::add_signal", 3)
+    for a in adds:
+        ctx.fn(a)
+        regs = [bb for bb, t in a.calls() if (t.get("def") or "").startswith("signal_hook_registry::register")]
+        inits = [(bb, t) for bb, t in a.calls() if (t.get("def") or "").endswith("Exfiltrator::init")]
+        if not regs or not inits:
+            raise AnchorLost("add_signal: init / registration calls")
+        dom = cfg.dominators(a)
+        okk = all(all(ib in dom[rb] and ib != rb for rb in regs) for ib, _ in inits)
+        ctx.check(okk, rid, "add_signal<%s>:init-before-register" % exf_of(a.name), "init(&slots[signal]) dominates register_sigaction(signal, action)", inits[0][1]["sp"],
+                  {"init": [t["sp"] for _, t in inits], "register": [a.term(b)["sp"] for b in regs]})
+
+
 def run(ctx):
+    ctx.guarded("C09.d", rule_d)
     ctx.guarded("C09.a", rule_a)
     ctx.guarded("C09.b", rule_b)
     ctx.guarded("C09.c", rule_c)
